@@ -195,6 +195,16 @@ def set (id : Ident) (h : Heap) (who : Nat) (name : Option (List Byte)) (len : I
       | some b => if len ≤ b.length then setInl id h who (bytesC (b.take len)) nlen charset else throw .oob
       | none => setInl id h who (zeros len) nlen charset
 
+/-- `mpt_identifier_set` while `malloc` fails: a request that passes the length checks and needs an allocation
+    (`nlen > _max`) returns 0 before anything is written; every other request does not allocate and runs as usual -/
+def setNoMem (id : Ident) (h : Heap) (who : Nat) (name : Option (List Byte)) (len : Int) : M (Ident × Heap × Bool) :=
+  let len' : Int := match name with
+    | some b => if len < 0 then (strlen b : Int) else len
+    | none => len
+  let nlen : Int := if name.isSome then len' + 1 else len'
+  if ¬ (len' < 0 ∨ nlen > 65535) ∧ nlen.toNat > id.max then pure (id, h, false)
+  else set id h who name len
+
 /-- `mpt_identifier_copy`, content fits the value area: the old allocation is saved, the bytes are copied over
     `_val` (and over `_base` beyond four of them), then the old allocation is freed -/
 def copyInl (id : Ident) (h : Heap) (who : Nat) (base : List Byte) (charset : Nat) : M (Ident × Heap × Bool) := do
